@@ -9,11 +9,22 @@
 // the CID<T> shim (verbatim from call_merger.rs); ExecutionTrace as a newtype over Vec with the real method bodies'
 // meaning stated on its view; `Clone for ExecutedState` = the derived clone returns an equal value; BiHashMap as an opaque
 // type with a ghost set of pairs and bimap's documented `insert` (pairs sharing the left or the right value are evicted);
-// the From impls thiserror's `#[from]` generates; `Default for MergerParResult/ResolvedFold/MergerFoldResult` = the derived one.
+// `Default for TraceSlider/ExecutionTrace/MergerParResult/MergerFoldResult/ResolvedFold/BiHashMap` = the derived / library one
+// (empty, zero); std's blanket `From<T> for T` is the identity (as in prev_result.rs); resolve_fold_lore is an external_body stub
+// that only names its call relation (see fold_m); merge_call_results and prepare_{single,both}_canon_result are external_body stubs
+// whose contracts are copied mechanically from the units that prove them (call_merger, canon_merger).
 use vstd::prelude::*;
+
+// the macro ap_merger.rs::prepare_merge_result uses, lifted as it is (plain Rust: no Verus syntax inside)
+//@ lift crates/air-lib/trace-handler/src/merger/ap_merger.rs :: macro_rules to_maybe_generation
+//@ end
+
 verus! {
 
 use std::rc::Rc;
+
+// std: the blanket `impl<T> From<T> for T` is the identity (as in prev_result.rs); used by `trace.into()` in TraceSlider::new
+pub assume_specification<T>[ <T as core::convert::From<T>>::from ](t: T) -> (r: T) ensures r == t;
 
 // ---------------------------------------------------------------- shim: TracePos (trusted, verbatim from slider.rs)
 #[derive(Copy, Clone, Default)]
@@ -105,7 +116,6 @@ pub type TraceLen = u32;
 impl Clone for ExecutedState { #[verifier::external_body] fn clone(&self) -> (r: Self) ensures r == *self { unimplemented!() } }
 
 // ---------------------------------------------------------------- shim: ExecutionTrace (trusted; bodies as in interpreter-data/src/trace.rs)
-#[derive(Default)]
 pub struct ExecutionTrace(pub Vec<ExecutedState>);
 impl ExecutionTrace {
     pub open spec fn tr(&self) -> Seq<ExecutedState> { self.0@ }
@@ -184,8 +194,13 @@ impl MergeError {
 //@ lift crates/air-lib/trace-handler/src/data_keeper/trace_slider.rs :: type SeenElements
 //@ end
 //@ lift crates/air-lib/trace-handler/src/data_keeper/trace_slider.rs :: struct TraceSlider
-//@ derive Default
+//@ derive
 //@ end
+// real: `#[derive(Default)]` (empty trace, position 0, lengths 0)
+impl Default for TraceSlider {
+    fn default() -> (r: Self) ensures r.fresh(Seq::<ExecutedState>::empty())
+    { TraceSlider { trace: ExecutionTrace(Vec::new()), position: TracePos(0), subtrace_len: 0, seen_elements: 0 } }
+}
 
 impl TraceSlider {
     // specs: verbatim from slider.rs (with slen() of the trace shim spelled tr().len())
@@ -208,6 +223,22 @@ impl TraceSlider {
         &&& o.exhausted() ==> self.pos() == o.pos() && self.seen() == o.seen()
         &&& o.in_window() ==> self.in_window()
     }
+
+    // a slider that has not moved yet: it stands at the start of `t` and its window is all of `t`
+    pub closed spec fn fresh(&self, t: Seq<ExecutedState>) -> bool {
+        self.trace.tr() == t && self.position.0 == 0 && self.subtrace_len == t.len() && self.seen_elements == 0
+    }
+
+//@ lift crates/air-lib/trace-handler/src/data_keeper/trace_slider.rs :: impl TraceSlider :: fn new
+//@ props C01 C09
+//@ ret r
+//@ sig 1 "impl Into<ExecutionTrace>" => "ExecutionTrace"
+//@ rewrite 1 "let trace = trace.into();" => "let trace: ExecutionTrace = trace.into();"
+//@ spec
+        requires trace.tr().len() <= u32::MAX          // the real trace_states_count() `expect`s this
+        ensures r.fresh(trace.tr()), r.wf(), r.in_window(), r.pos() == 0, r.seen() == 0, r.slen() == trace.tr().len(),
+            r.states() == trace.tr(), r.tlen() == trace.tr().len(),
+//@ end
 
 // The slider unit proves next_state against a contract that is silent about WHICH state is returned (ExecutedState is an
 // opaque tag there), so it cannot be imported with `//@ stub` for contracts that speak about the merged content. It is
@@ -262,10 +293,46 @@ impl<K, V> BiHashMap<K, V> {
 //@ derive
 //@ end
 
+impl MergeCtx {
+//@ lift crates/air-lib/trace-handler/src/data_keeper/merge_ctx.rs :: impl MergeCtx :: fn from_trace
+//@ props C01 C09
+//@ ret r
+//@ spec
+        requires trace.tr().len() <= u32::MAX
+        ensures r.slider.fresh(trace.tr()), r.slider.wf(), r.slider.in_window(), r.slider.states() == trace.tr(),
+            r.slider.pos() == 0, r.slider.seen() == 0, r.slider.slen() == trace.tr().len(), r.slider.tlen() == trace.tr().len(),
+//@ end
+}
+// real: `<_>::default()` of bimap::BiHashMap (no pairs) and of ExecutionTrace (`#[derive(Default)]`: no states)
+impl<K, V> Default for BiHashMap<K, V> {
+    #[verifier::external_body]
+    fn default() -> (r: Self) ensures r.pairs() == Set::<(K, V)>::empty() { unimplemented!() }
+}
+impl Default for ExecutionTrace {
+    fn default() -> (r: Self) ensures r.tr() == Seq::<ExecutedState>::empty() { ExecutionTrace(Vec::new()) }
+}
+
 impl DataKeeper {
     pub open spec fn rlen(&self) -> nat { self.result_trace.tr().len() }
     // type-level invariant: slider invariants (slider.rs) and a result trace that still has a u32 position
+    // (on the wasm32 target every Vec length is below 2^32; trace_states_count() `expect`s it)
     pub open spec fn wf(&self) -> bool { self.prev_ctx.slider.wf() && self.current_ctx.slider.wf() && self.rlen() <= u32::MAX }
+
+//@ lift crates/air-lib/trace-handler/src/data_keeper/keeper.rs :: impl DataKeeper :: fn from_trace
+//@ props C01 C09
+//@ ret r
+//@ spec
+        requires prev_trace.tr().len() <= u32::MAX, current_trace.tr().len() <= u32::MAX
+        ensures
+            // C09: merging starts at the first state of each trace, with the whole trace as the window, and nothing merged yet
+            r.wf(), r.prev_ctx.slider.fresh(prev_trace.tr()), r.current_ctx.slider.fresh(current_trace.tr()),
+            r.prev_ctx.slider.in_window(), r.current_ctx.slider.in_window(),
+            r.prev_ctx.slider.states() == prev_trace.tr(), r.current_ctx.slider.states() == current_trace.tr(),
+            r.prev_ctx.slider.pos() == 0 && r.prev_ctx.slider.seen() == 0 && r.prev_ctx.slider.slen() == prev_trace.tr().len(),
+            r.current_ctx.slider.pos() == 0 && r.current_ctx.slider.seen() == 0 && r.current_ctx.slider.slen() == current_trace.tr().len(),
+            r.rlen() == 0, r.new_to_prev_pos.pairs() == Set::<(TracePos, TracePos)>::empty(),
+            r.new_to_current_pos.pairs() == Set::<(TracePos, TracePos)>::empty(),
+//@ end
 
 //@ lift crates/air-lib/trace-handler/src/data_keeper/keeper.rs :: impl DataKeeper :: fn result_states_count
 //@ props C01
@@ -407,6 +474,383 @@ pub open spec fn par_or_none(s: Option<ExecutedState>) -> bool { s is None || s-
         // a kind mismatch is an error naming the offending state(s), never a panic
         r matches Err(e) ==> mismatch_error(old(data_keeper).prev_ctx.slider.peek(), old(data_keeper).current_ctx.slider.peek(), "par", e),
 //@ end
+
+// restated from call_merger.rs (a trait impl cannot be imported): where the instruction has to look the value up
+impl vstd::std_specs::convert::FromSpecImpl<PreparationScheme> for ValueSource {
+    open spec fn obeys_from_spec() -> bool { true }
+    open spec fn from_spec(scheme: PreparationScheme) -> ValueSource {
+        if scheme is Current { ValueSource::CurrentData } else { ValueSource::PreviousData }
+    }
+}
+impl From<PreparationScheme> for ValueSource {
+//@ lift crates/air-lib/trace-handler/src/merger/call_merger.rs :: impl From<PreparationScheme> for ValueSource :: fn from
+//@ props C01 C09
+//@ end
+}
+
+// ================================================================ call (merger/call_merger.rs)
+pub mod call_m {
+use super::*;
+
+// vocabulary of the per-state join, copied from the unit that proves merge_call_results
+//@ import-spec call_merger :: is_sent is_result vref_eqv res_eqv join
+// callee: contract proved in unit call_merger on the lifted body
+//@ stub call_merger :: merge_call_results
+
+//@ lift crates/air-lib/trace-handler/src/merger/call_merger.rs :: const EXPECTED_STATE_NAME
+//@ rewrite 1 "&str" => "&'static str"
+//@ end
+//@ lift crates/air-lib/trace-handler/src/merger/call_merger.rs :: struct MetCallResult
+//@ derive
+//@ end
+//@ lift crates/air-lib/trace-handler/src/merger/call_merger.rs :: enum MergerCallResult
+//@ derive
+//@ end
+
+impl MetCallResult {
+//@ lift crates/air-lib/trace-handler/src/merger/call_merger.rs :: impl MetCallResult :: fn new
+//@ props C01 C09
+//@ ret r
+//@ spec
+        ensures r.result == result, r.trace_pos == trace_pos, r.source == source
+//@ end
+}
+
+//@ lift crates/air-lib/trace-handler/src/merger/call_merger.rs :: fn prepare_call_result
+//@ props C01 C09
+//@ ret r
+//@ spec
+    requires
+        old(data_keeper).rlen() <= u32::MAX,
+        (scheme is Previous || scheme is Both) ==> old(data_keeper).prev_ctx.slider.pos() >= 1,
+        (scheme is Current || scheme is Both) ==> old(data_keeper).current_ctx.slider.pos() >= 1,
+    ensures
+        final(data_keeper).prev_ctx == old(data_keeper).prev_ctx, final(data_keeper).current_ctx == old(data_keeper).current_ctx,
+        final(data_keeper).result_trace == old(data_keeper).result_trace,
+        maps_prepared(old(data_keeper), final(data_keeper), scheme),
+        // the value is handed on verbatim, with the position it will get in the result trace and its origin
+        r matches MergerCallResult::Met(m) && m.result == call_result && m.trace_pos.0 == old(data_keeper).rlen()
+            && (m.source is CurrentData <==> scheme is Current),
+//@ end
+
+// a slider's next state, as a call
+pub open spec fn call_of(s: Option<ExecutedState>) -> Option<CallResult> {
+    match s { Some(ExecutedState::Call(c)) => Some(c), _ => None }
+}
+pub open spec fn call_or_none(s: Option<ExecutedState>) -> bool { s is None || s->Some_0 is Call }
+// what the call instruction must be handed (C09): the only state there is, or the join of the two; None: nothing / inconsistent
+pub open spec fn merged_call(p: Option<ExecutedState>, c: Option<ExecutedState>) -> Option<CallResult> {
+    match (call_of(p), call_of(c)) {
+        (Some(a), Some(b)) => join(a, b),
+        (Some(a), None) => Some(a),
+        (None, Some(b)) => Some(b),
+        (None, None) => None,
+    }
+}
+// the merged state is the current one iff only the current data had a result (or a state at all)
+pub open spec fn taken_from_current(p: Option<ExecutedState>, c: Option<ExecutedState>) -> bool {
+    match (call_of(p), call_of(c)) {
+        (Some(a), Some(b)) => is_sent(a) && is_result(b),
+        (None, Some(_)) => true,
+        _ => false,
+    }
+}
+// the bookkeeping: the new position is mapped to the old position(s) of the state(s) the value was taken from
+// (two results that merge are recorded on the previous side, and on both sides if both are Executed and the code says Both)
+pub open spec fn call_maps_prepared(o: &DataKeeper, a: &DataKeeper, p: Option<ExecutedState>, c: Option<ExecutedState>) -> bool {
+    if taken_from_current(p, c) {
+        maps_prepared(o, a, PreparationScheme::Current)
+    } else if call_of(c) is None {
+        maps_prepared(o, a, PreparationScheme::Previous)
+    } else {
+        maps_prepared(o, a, PreparationScheme::Previous)
+            || (call_of(p)->Some_0 is Executed && call_of(c)->Some_0 is Executed && maps_prepared(o, a, PreparationScheme::Both))
+    }
+}
+
+//@ lift crates/air-lib/trace-handler/src/merger/call_merger.rs :: fn try_merge_next_state_as_call
+//@ props C01 C09
+//@ ret r
+//@ spec
+    requires old(data_keeper).wf()        // nothing about the states the sliders hand out: they are hostile
+    ensures
+        // C09.K2: one state consumed from each non-exhausted slider, whatever the outcome; traces untouched
+        final(data_keeper).wf(), both_stepped(old(data_keeper), final(data_keeper)),
+        ({
+            let p = old(data_keeper).prev_ctx.slider.peek();
+            let c = old(data_keeper).current_ctx.slider.peek();
+            // NotMet iff both sliders are exhausted; Met iff at least one had a Call state, no other kind showed up
+            // and the two call states are consistent
+            &&& (r matches Ok(MergerCallResult::NotMet)) <==> (p is None && c is None)
+            &&& (r matches Ok(MergerCallResult::Met(_))) <==> (call_or_none(p) && call_or_none(c) && merged_call(p, c) is Some)
+            // the value handed to the call instruction is the join (the only state, if there is one only): nothing is forgotten
+            &&& r matches Ok(MergerCallResult::Met(m)) ==> Some(m.result) == merged_call(p, c)
+                    && m.trace_pos.0 == old(data_keeper).rlen()
+                    && (m.source is CurrentData <==> taken_from_current(p, c))
+                    && call_maps_prepared(old(data_keeper), final(data_keeper), p, c)
+            // a state of another kind: an error naming the offending state(s), never a panic
+            &&& !(call_or_none(p) && call_or_none(c)) ==> (r matches Err(e) && mismatch_error(p, c, "call", e))
+            // two call states that do not join: the join's error
+            &&& (call_or_none(p) && call_or_none(c) && (p is Some || c is Some) && merged_call(p, c) is None)
+                    ==> (r matches Err(e) && e is IncorrectCallResult)
+            &&& !(r matches Ok(MergerCallResult::Met(_))) ==> maps_kept(old(data_keeper), final(data_keeper))
+        }),
+//@ end
+} // mod call_m
+
+
+// ================================================================ ap (merger/ap_merger.rs)
+pub mod ap_m {
+use super::*;
+
+//@ lift crates/air-lib/trace-handler/src/merger/ap_merger.rs :: const EXPECTED_STATE_NAME
+//@ rewrite 1 "&str" => "&'static str"
+//@ end
+//@ lift crates/air-lib/trace-handler/src/merger/ap_merger.rs :: struct MetApResult
+//@ derive
+//@ end
+//@ lift crates/air-lib/trace-handler/src/merger/ap_merger.rs :: enum MergerApResult
+//@ derive
+//@ end
+
+impl MetApResult {
+//@ lift crates/air-lib/trace-handler/src/merger/ap_merger.rs :: impl MetApResult :: fn new
+//@ props C01 C09
+//@ ret r
+//@ spec
+        ensures r.generation == generation, r.value_source == value_source
+//@ end
+}
+
+// `res_generations` comes from (hostile) data: any length. Exactly one generation is usable.
+pub open spec fn ap_usable(a: ApResult) -> bool { a.res_generations@.len() == 1 }
+
+//@ lift crates/air-lib/trace-handler/src/merger/ap_merger.rs :: fn prepare_merge_result
+//@ props C01 C09
+//@ ret r
+//@ spec
+    requires
+        old(data_keeper).rlen() <= u32::MAX,
+        (scheme is Previous || scheme is Both) ==> old(data_keeper).prev_ctx.slider.pos() >= 1,
+        (scheme is Current || scheme is Both) ==> old(data_keeper).current_ctx.slider.pos() >= 1,
+        // nothing about ap_result.res_generations
+    ensures
+        final(data_keeper).prev_ctx == old(data_keeper).prev_ctx, final(data_keeper).current_ctx == old(data_keeper).current_ctx,
+        final(data_keeper).result_trace == old(data_keeper).result_trace,
+        // (the bookkeeping is done before the generations are looked at, hence also on Err)
+        maps_prepared(old(data_keeper), final(data_keeper), scheme),
+        r is Ok <==> ap_usable(ap_result),
+        r matches Ok(m) ==> (m matches MergerApResult::Met(met) && met.generation == ap_result.res_generations@[0]
+            && (met.value_source is CurrentData <==> scheme is Current)),
+        // 0 or more than 1 generations: an error carrying the state, never an index panic
+        r matches Err(e) ==> e == MergeError::IncorrectApResult(ApResultError::InvalidDstGenerations(ap_result)),
+//@ end
+
+pub open spec fn ap_of(s: Option<ExecutedState>) -> Option<ApResult> {
+    match s { Some(ExecutedState::Ap(a)) => Some(a), _ => None }
+}
+pub open spec fn ap_or_none(s: Option<ExecutedState>) -> bool { s is None || s->Some_0 is Ap }
+// the ap state whose generation is used: the previous one if there is one (prev data cannot learn generations from current)
+pub open spec fn chosen_ap(p: Option<ExecutedState>, c: Option<ExecutedState>) -> Option<ApResult> {
+    match (ap_of(p), ap_of(c)) {
+        (Some(a), _) => Some(a),
+        (None, Some(b)) => Some(b),
+        (None, None) => None,
+    }
+}
+pub open spec fn ap_scheme(p: Option<ExecutedState>, c: Option<ExecutedState>) -> PreparationScheme {
+    if p is Some && c is Some { PreparationScheme::Both } else if p is Some { PreparationScheme::Previous } else { PreparationScheme::Current }
+}
+
+//@ lift crates/air-lib/trace-handler/src/merger/ap_merger.rs :: fn try_merge_next_state_as_ap
+//@ props C01 C09
+//@ ret r
+//@ spec
+    requires old(data_keeper).wf()        // nothing about the states the sliders hand out: they are hostile
+    ensures
+        final(data_keeper).wf(), both_stepped(old(data_keeper), final(data_keeper)),
+        ({
+            let p = old(data_keeper).prev_ctx.slider.peek();
+            let c = old(data_keeper).current_ctx.slider.peek();
+            let kinds_ok = ap_or_none(p) && ap_or_none(c);
+            &&& (r matches Ok(MergerApResult::NotMet)) <==> (p is None && c is None)
+            &&& (r matches Ok(MergerApResult::Met(_))) <==> (kinds_ok && chosen_ap(p, c) is Some && ap_usable(chosen_ap(p, c)->Some_0))
+            &&& r matches Ok(MergerApResult::Met(m)) ==> (chosen_ap(p, c) matches Some(a) && m.generation == a.res_generations@[0]
+                    && (m.value_source is CurrentData <==> p is None))
+            // a state of another kind: an error naming the offending state(s), never a panic
+            &&& !kinds_ok ==> (r matches Err(e) && mismatch_error(p, c, "ap", e))
+            // an ap state with 0 or several generations: an error carrying it
+            &&& (kinds_ok && chosen_ap(p, c) is Some && !ap_usable(chosen_ap(p, c)->Some_0))
+                    ==> r == Err::<MergerApResult, MergeError>(MergeError::IncorrectApResult(ApResultError::InvalidDstGenerations(chosen_ap(p, c)->Some_0)))
+            &&& (kinds_ok && (p is Some || c is Some)) ==> maps_prepared(old(data_keeper), final(data_keeper), ap_scheme(p, c))
+            &&& !(kinds_ok && (p is Some || c is Some)) ==> maps_kept(old(data_keeper), final(data_keeper))
+        }),
+//@ end
+} // mod ap_m
+
+// ================================================================ canon (merger/canon_merger.rs)
+pub mod canon_m {
+use super::*;
+
+// vocabulary of the per-state join, copied from the unit that proves merge_canon_results / prepare_*_canon_result
+//@ import-spec canon_merger :: is_sent is_result res_eqv join
+//@ lift crates/air-lib/trace-handler/src/merger/canon_merger.rs :: const EXPECTED_STATE_NAME
+//@ rewrite 1 "&str" => "&'static str"
+//@ end
+//@ lift crates/air-lib/trace-handler/src/merger/canon_merger.rs :: enum MergerCanonResult
+//@ derive
+//@ end
+// callees: contracts proved in unit canon_merger on the lifted bodies
+//@ stub canon_merger :: prepare_single_canon_result
+//@ stub canon_merger :: prepare_both_canon_result
+
+pub open spec fn canon_of(s: Option<ExecutedState>) -> Option<CanonResult> {
+    match s { Some(ExecutedState::Canon(c)) => Some(c), _ => None }
+}
+pub open spec fn canon_or_none(s: Option<ExecutedState>) -> bool { s is None || s->Some_0 is Canon }
+// what the canon instruction must be handed (C09): the only state there is, or the join of the two
+pub open spec fn merged_canon(p: Option<ExecutedState>, c: Option<ExecutedState>) -> Option<CanonResult> {
+    match (canon_of(p), canon_of(c)) {
+        (Some(a), Some(b)) => join(a, b),
+        (Some(a), None) => Some(a),
+        (None, Some(b)) => Some(b),
+        (None, None) => None,
+    }
+}
+
+//@ lift crates/air-lib/trace-handler/src/merger/canon_merger.rs :: fn try_merge_next_state_as_canon
+//@ props C01 C09
+//@ ret r
+//@ spec
+    requires old(data_keeper).wf()        // nothing about the states the sliders hand out: they are hostile
+    ensures
+        final(data_keeper).wf(), both_stepped(old(data_keeper), final(data_keeper)), maps_kept(old(data_keeper), final(data_keeper)),
+        ({
+            let p = old(data_keeper).prev_ctx.slider.peek();
+            let c = old(data_keeper).current_ctx.slider.peek();
+            let kinds_ok = canon_or_none(p) && canon_or_none(c);
+            &&& (r matches Ok(MergerCanonResult::Empty)) <==> (p is None && c is None)
+            &&& (r matches Ok(MergerCanonResult::CanonResult(_))) <==> (kinds_ok && merged_canon(p, c) is Some)
+            &&& r matches Ok(MergerCanonResult::CanonResult(m)) ==> Some(m) == merged_canon(p, c)
+            &&& !kinds_ok ==> (r matches Err(e) && mismatch_error(p, c, "canon", e))
+            &&& (kinds_ok && (p is Some || c is Some) && merged_canon(p, c) is None) ==> (r matches Err(e) && e is IncorrectCanonResult)
+        }),
+//@ end
+} // mod canon_m
+
+
+// ================================================================ fold (merger/fold_merger.rs, fold_merger/fold_lore_resolver.rs)
+pub mod fold_m {
+use super::*;
+
+//@ lift crates/air-lib/trace-handler/src/merger/fold_merger/fold_lore_resolver.rs :: struct ResolvedSubTraceDescs
+//@ derive
+//@ end
+//@ lift crates/air-lib/trace-handler/src/merger/fold_merger/fold_lore_resolver.rs :: type FoldStatesCount
+//@ end
+// the real field is `HashMap<TracePos, ResolvedSubTraceDescs>`; only its emptiness is spoken about here
+#[verifier::external_body]
+pub struct LoreMap { m: std::collections::HashMap<u32, ResolvedSubTraceDescs> }
+impl LoreMap {
+    pub uninterp spec fn entries(&self) -> Map<TracePos, ResolvedSubTraceDescs>;
+}
+//@ lift crates/air-lib/trace-handler/src/merger/fold_merger/fold_lore_resolver.rs :: struct ResolvedFold
+//@ derive
+//@ rewrite 1 "HashMap<TracePos, ResolvedSubTraceDescs>" => "LoreMap"
+//@ end
+//@ lift crates/air-lib/trace-handler/src/merger/fold_merger.rs :: struct MergerFoldResult
+//@ derive
+//@ end
+// an absent fold state resolves to nothing: no iterations, no states
+pub open spec fn empty_fold(f: ResolvedFold) -> bool { f.fold_states_count == 0 && f.lore.entries() == Map::<TracePos, ResolvedSubTraceDescs>::empty() }
+// real: `#[derive(Default)]` on both
+impl Default for ResolvedFold {
+    #[verifier::external_body]
+    fn default() -> (r: Self) ensures empty_fold(r) { unimplemented!() }
+}
+impl Default for MergerFoldResult {
+    fn default() -> (r: Self) ensures empty_fold(r.prev_fold_lore), empty_fold(r.current_fold_lore)
+    { MergerFoldResult { prev_fold_lore: ResolvedFold::default(), current_fold_lore: ResolvedFold::default() } }
+}
+
+// resolve_fold_lore is NOT lifted: Verus rejects its `fold.lore.iter().zip(lens).try_fold(.., |mut resolved_lore, (lore, lens)| ..)`
+// ("only variables are supported here, not general patterns"; `Zip::try_fold` has no specification either). Its callee
+// compute_lens_convolution is proved in unit convolution; the closure's two indexings `subtraces_desc[0]` / `[1]` are safe because
+// that callee returned Ok (=> every sublore has exactly two descriptors). The stub below only NAMES the call relation
+// (no determinism, no success condition claimed), so that the contracts can say which fold was resolved against which context.
+pub uninterp spec fn resolves_to(fold: FoldResult, merge_ctx: MergeCtx, r: MergeResult<ResolvedFold>) -> bool;
+#[verifier::external_body]
+pub fn resolve_fold_lore(fold: &FoldResult, merge_ctx: &MergeCtx) -> (r: MergeResult<ResolvedFold>)
+    ensures resolves_to(*fold, *merge_ctx, r)
+{ unimplemented!() }
+
+impl MergerFoldResult {
+//@ lift crates/air-lib/trace-handler/src/merger/fold_merger.rs :: impl MergerFoldResult :: fn from_fold_result
+//@ props C01 C09
+//@ ret r
+//@ spec
+        ensures
+            // the fold is resolved against the context it came from; the other side gets the empty lore
+            ctx_type is Previous ==> match r {
+                Ok(m) => resolves_to(*fold, data_keeper.prev_ctx, Ok(m.prev_fold_lore)) && empty_fold(m.current_fold_lore),
+                Err(e) => resolves_to(*fold, data_keeper.prev_ctx, Err(e)),
+            },
+            ctx_type is Current ==> match r {
+                Ok(m) => resolves_to(*fold, data_keeper.current_ctx, Ok(m.current_fold_lore)) && empty_fold(m.prev_fold_lore),
+                Err(e) => resolves_to(*fold, data_keeper.current_ctx, Err(e)),
+            },
+//@ end
+
+//@ lift crates/air-lib/trace-handler/src/merger/fold_merger.rs :: impl MergerFoldResult :: fn from_fold_results
+//@ props C01 C09
+//@ ret r
+//@ spec
+        ensures
+            // each fold is resolved against its own context; the first failure is the result
+            match r {
+                Ok(m) => resolves_to(*prev_fold, data_keeper.prev_ctx, Ok(m.prev_fold_lore))
+                    && resolves_to(*current_fold, data_keeper.current_ctx, Ok(m.current_fold_lore)),
+                Err(e) => resolves_to(*prev_fold, data_keeper.prev_ctx, Err(e))
+                    || ((exists|f: ResolvedFold| resolves_to(*prev_fold, data_keeper.prev_ctx, Ok(f)))
+                        && resolves_to(*current_fold, data_keeper.current_ctx, Err(e))),
+            },
+//@ end
+}
+
+pub open spec fn fold_of(s: Option<ExecutedState>) -> Option<FoldResult> {
+    match s { Some(ExecutedState::Fold(f)) => Some(f), _ => None }
+}
+pub open spec fn fold_or_none(s: Option<ExecutedState>) -> bool { s is None || s->Some_0 is Fold }
+// one side of the result: the resolution of the fold state of that side against that side's context, or the empty lore
+pub open spec fn side_resolved(s: Option<ExecutedState>, ctx: MergeCtx, f: ResolvedFold) -> bool {
+    match fold_of(s) { Some(fold) => resolves_to(fold, ctx, Ok(f)), None => empty_fold(f) }
+}
+pub open spec fn side_failed(s: Option<ExecutedState>, ctx: MergeCtx, e: MergeError) -> bool {
+    fold_of(s) matches Some(fold) && resolves_to(fold, ctx, Err(e))
+}
+
+//@ lift crates/air-lib/trace-handler/src/merger/fold_merger.rs :: fn try_merge_next_state_as_fold
+//@ props C01 C09
+//@ ret r
+//@ spec
+    requires old(data_keeper).wf()        // nothing about the states the sliders hand out: they are hostile
+    ensures
+        final(data_keeper).wf(), both_stepped(old(data_keeper), final(data_keeper)), maps_kept(old(data_keeper), final(data_keeper)),
+        ({
+            let p = old(data_keeper).prev_ctx.slider.peek();
+            let c = old(data_keeper).current_ctx.slider.peek();
+            let kinds_ok = fold_or_none(p) && fold_or_none(c);
+            // a state of another kind: an error naming the offending state(s), never a panic
+            &&& !kinds_ok ==> (r matches Err(e) && mismatch_error(p, c, "fold", e))
+            // otherwise each side's lore is the resolution of that side's fold against that side's (already advanced) context
+            &&& kinds_ok ==> match r {
+                    Ok(m) => side_resolved(p, final(data_keeper).prev_ctx, m.prev_fold_lore)
+                        && side_resolved(c, final(data_keeper).current_ctx, m.current_fold_lore),
+                    Err(e) => side_failed(p, final(data_keeper).prev_ctx, e) || side_failed(c, final(data_keeper).current_ctx, e),
+                }
+        }),
+//@ end
+} // mod fold_m
 
 } // verus!
 fn main() {}
